@@ -527,6 +527,18 @@ def run_idle_counter(prog):
                 if pf and pf[-1][2] == "ticks_since_idle" and pf[-1][0] == KAN:
                     consumers.append((f, bi, si))
                 continue
+            if rv["k"] == "use" and is_place(rv["a"]) and proj(rv["a"]) and not proj(st["p"]):
+                # `let idle_ticks = self.ticks_since_idle;` handed to a closure that compares it
+                pf = proj_fields(rv["a"])
+                if pf and pf[-1][2] == "ticks_since_idle" and pf[-1][0] == KAN:
+                    l = st["p"]["l"]
+                    refs = {l} | {s2["p"]["l"] for _b, _s, s2 in f.all_rvalues() if s2["rv"]["k"] == "ref" and not proj(s2["rv"]["p"])
+                                  and s2["rv"]["p"]["l"] == l and not proj(s2["p"])}
+                    captured = any(s2["rv"]["k"] == "agg" and "clo" in s2["rv"] and any(is_place(o) and not proj(o) and o["l"] in refs for o in s2["rv"]["ops"])
+                                   for _b, _s, s2 in f.all_rvalues())
+                    if captured:
+                        consumers.append((f, bi, si))
+                continue
             if rv["k"] != "bin" or rv.get("op") not in ("Gt", "Ge", "Lt", "Le"):
                 continue
             ops = rvalue_operands(rv)
